@@ -9,7 +9,8 @@ CFG = {
                  'a complaint about a PAIR of rings / members one of which is itself malformed is accepted as '
                  'naming a defective ring (relations between non-simple rings are not well defined)'],
  'count': {'quick': 10000, 'thorough': 400000},
- 'lean_files': ['GeoModel/Validation.lean', 'GeoModel/ValidationSpec.lean', 'GeoModel/Valid.lean',
+ 'translator': True,
+ 'lean_files': ['GeoModel/TRANPrelude.lean', 'GeoModel/Gen/ValidGen.lean', 'GeoProofs/Lemmas/TRAN2Valid.lean', 'GeoModel/Validation.lean', 'GeoModel/ValidationSpec.lean', 'GeoModel/Valid.lean',
                 'GeoModel/RelateSpec.lean', 'GeoModel/Ops/C14.lean',
                 'GeoProofs/Lemmas/C14PGeom.lean', 'GeoProofs/Lemmas/C14PRing.lean',
                 'GeoProofs/Lemmas/C14PPairs.lean', 'GeoProofs/Lemmas/SMLXHolePair.lean'],
@@ -25,7 +26,12 @@ CFG = {
          'the 820 convertible isValid cases of the JTS TestValid*.xml files with their expected answers, which are '
          'cross-checked against the specification (811 agree; 9 are invalid in JTS only because the interior is '
          'disconnected, which the property does not ask for)',
- 'trusted_base': ['modelled, not verified: `relate` is represented by the executable DE-9IM specification '
+ 'trusted_base': ['translator/rs2lean.py + rsexpr.py + jobs2.py for validation/utils.rs (explicit choices: f64::is_finite = XNum.isFinite on '
+                  'coordinates that may be non-finite; RemoveRepeatedPoints = Vec::dedup under the f64 equality of Coord (V.dedupBy V.ceq); '
+                  'chained_lines_overlap and linestring_has_self_intersection on finite (rational) coordinates with orient2d = the sign of the '
+                  'exact determinant and Line: Intersects<Line> = the kernel tied in C02; lines().enumerate() = consecutive pairs with their '
+                  'indices). Not regenerated: the visit_validation bodies (a handler closure called with `?`: monadic control flow)',
+                  'modelled, not verified: `relate` is represented by the executable DE-9IM specification '
                   'relateSpec (property C01 ties relate to it on valid input); ring-pair / member-pair errors '
                   'whose operands are themselves malformed (outside the domain of relate) are left out of the '
                   'model-versus-implementation comparison (tag relate-out-of-domain-entries-ignored; decided '
@@ -44,7 +50,9 @@ MANIFEST = {'note': 'Trusted: Lean 4.33 kernel (axioms propext, Classical.choice
  'technique': 'Lean 4 proof (visitor = fold of the handler over an error list, for every lawful handler monad; '
               'ring-local clauses) + model/implementation correspondence and an independent executable '
               'specification of well-formedness on valid and malformed streams',
- 'text': 'Proved in Lean for the model (GeoModel/Validation.lean: one visitor per type, generic in the handler '
+ 'text': 'Translator tie (TRAN2, validationUtils_eq_source): check_coord_is_not_finite, check_too_few_points, chained_lines_overlap and '
+         'linestring_has_self_intersection of the model equal the terms regenerated from validation/utils.rs on this run '
+         '(GeoModel/Gen/ValidGen.lean). Proved in Lean for the model (GeoModel/Validation.lean: one visitor per type, generic in the handler '
          'monad exactly as visit_validation is generic in the handler): visitGeom_eq - with ANY lawful handler '
          'the visitor feeds the handler the entries of one list geomErrs in order; hence validationErrors_eq, '
          'checkValidation_eq (the fail-fast visitor returns the first entry the collecting one lists), '
